@@ -95,6 +95,21 @@ def handle (j : Json) : Except String Json := do
     let tgt ← pts j "tgt"
     return Json.mkObj [("model", fragJson (fitFragment fops.isZero Float.sqrt fitU frag src tgt)),
                        ("old", fragJson (fitFragmentOld fops.isZero Float.sqrt fitU frag src tgt))]
+  | "hist" =>
+    -- a history on the caller's own objects: `rows` = the rows that exist (address = position), `steps` = assignments to
+    -- a row (`{"w": address, "p": [x,y,z]}`) and fits on lists of addresses (`{"frag": […], "src": […], "tgt": […]}`);
+    -- model = `runH` (fit_fragment statement by statement on the heap), spec = `specH` (fitFragment of the current numbers)
+    let rows ← pts j "rows"
+    let steps ← (← arrField j "steps").mapM fun (st : Json) => do
+      match fieldOpt st "w" with
+      | some a => return Step.write (← nat a) (← field st "p" >>= pt)
+      | none =>
+        let addrs := fun (k : String) => do (← arrField st k).mapM nat
+        return Step.fit (← addrs "frag") (← addrs "src") (← addrs "tgt")
+    let heap : Heap Float := ⟨fun a => match rows[a]? with | some p => p | none => ⟨0.0, 0.0, 0.0⟩, rows.length⟩
+    let out := fun (l : List (Option (List (P3 Float) × Float))) => Json.arr (l.map fragJson).toArray
+    return Json.mkObj [("model", out (runH fops.isZero Float.sqrt fitU heap steps)),
+                       ("spec", out (specH fops.isZero Float.sqrt fitU heap.cell steps))]
   | _ => err s!"C20: unknown op {op}"
 
 end Shelx.Drv.C20
